@@ -1269,7 +1269,11 @@ def check(case):
                     cur.obj.set_n_ids(ad.n_ids + 1)
                     # in between: the parameters fixed by name are still the fixed ones (a heterogeneous part in
                     # front of them has grown by one individual)
-                    with case.clause('names_counts'):
+                    # (only with the default names: after a rename / reset the names at another number of
+                    # individuals are not modelled by the harness)
+                    with case.clause('names_counts' if list(cur.names) == list(names0) else 'names_counts_renamed'):
+                        if list(cur.names) != list(names0):
+                            raise Inconclusive()
                         fixed_names = [cur.names[i] for i in sorted(cur.fixed)]
                         if popgen.has(ad.pop, 'hetero'):
                             wide = ref.pop_names(ad.pop, ad.n_ids + 1, ad.dims)
